@@ -5,7 +5,11 @@ from props import base
 
 PROP = "C16"
 PROPS_V = "theories/Props/C16.v"
-THEOREMS = ["C16_unit_spellings_agree", "C16_out_of_range_rejected"]
+THEOREMS = ["C16_unit_spellings_agree", "C16_out_of_range_rejected",
+            "C16_civil_roundtrip", "C16_civil_from_days_valid", "C16_civil_of_days_from_civil",
+            "C16_parse_print_rfc3339_gen", "C16_parse_print_rfc3339",
+            "C16_iso_spellings_agree", "C16_iso_string_agree", "C16_iso_and_integer_agree",
+            "C16_parse_print_date", "C16_date_string_agree"]
 RULE = ("instants (whole second t in year 1..9999 or a digit-band edge, plus a sub-second part) x spellings "
         "(RFC 3339 with random offset/fraction/separator, date-only at midnight, integer s/ms/us/ns as string "
         "and as JSON number, JSON float seconds) plus a malformed stream (mutated spellings); a case is "
